@@ -104,6 +104,9 @@ def render(case):
                 y, k = more("zz: *%s" % name), dict(k, zz=val)
             if rnd.random() < 0.3:
                 y, k = more("<<: {mq: %d, mr: [%d]}" % (i, i)), dict(k, mq=i, mr=[i])
+            if rnd.random() < 0.25 and kind != "VFail":
+                # an element that is falsy once constructed (an empty group, say)
+                y, k = more("falsy: true"), dict(k, falsy=True)
             if "&t%d " % i in y:
                 anchors.append(("t%d" % i, ("Made", 900 + i, (), {"x": i}), True))
             if "&m%d " % i in y:
@@ -115,7 +118,8 @@ def render(case):
             # (no __args__ here: the property speaks of __type__ mappings "with keyword items";
             #  positional __args__ of a non-final element collide with target=, which the
             #  translator passes by keyword - observed, documented in DESIGN.md, not demanded)
-            lines.append("  - {__type__: vp.fx_plugins.%s%d%s" % (kind, i, (", " + y[1:]) if len(y) > 2 else "}"))
+            # (the factory is a module attribute or an attribute of a class in the module)
+            lines.append("  - {__type__: vp.fx_plugins.%s%s%d%s" % (rnd.choice(["", "", "Ns."]), kind, i, (", " + y[1:]) if len(y) > 2 else "}"))
         elif form == "tagbare":
             lines.append("  - !%s%d" % (kind, i))
         else:
